@@ -83,10 +83,23 @@ def net_strategy(dll, max_stacks=4, max_msgs=8, allow_zero_latency=True, min_len
                 elif kind == "unowned":
                     m["dst_addr"] = draw(st.sampled_from(unowned))
             msgs.append(m)
-        return {"dll": dll, "stacks": stacks, "msgs": msgs,
-                "eps": draw(st.lists(st.sampled_from(EPS_GRID), min_size=1, max_size=3)),
-                "disp": draw(st.lists(st.sampled_from(EPS_GRID), min_size=1, max_size=3))}
+        return limit_tx_time({"dll": dll, "stacks": stacks, "msgs": msgs,
+                              "eps": draw(st.lists(st.sampled_from(EPS_GRID), min_size=1, max_size=3)),
+                              "disp": draw(st.lists(st.sampled_from(EPS_GRID), min_size=1, max_size=3))})
     return build()
+
+
+def limit_tx_time(params):
+    """Soundness envelope: the job thread writes the whole cleared window of every session of its stack in one pass.  When
+    each write blocks, the other sessions of that stack are not served meanwhile; beyond roughly T1 = 0.75 s a receiver of
+    one of its broadcasts legitimately gives up.  That starvation is a design limit of the stack (DESIGN.md 8), not what
+    C01/C02 judge: frame write times are kept so small that one pass never blocks longer than 0.1 s."""
+    seg = 60 if params["dll"] == "j1939-22" else 7
+    for i, stk in enumerate(params["stacks"]):
+        burst = sum(min(255, -(-m["pl"]["n"] // seg)) for m in params["msgs"] if m["src"][0] == i and m["pl"]["n"] > (60 if seg == 60 else 8))
+        if stk.get("tx_time", 0.0) * burst > 0.1:
+            stk["tx_time"] = 0.0001 if burst * 0.0001 <= 0.1 else 0.0
+    return params
 
 
 def pdu1_format(dp):
@@ -218,11 +231,18 @@ def submit_all(w, stacks, params, times, results):
             ca = stk.cas["ca%d" % m["src"][1]]
             data = W.make_payload(m["pl"])
             ps = dest_addr(params, m) if m["kind"] != "bc2" else m["ps"]
+            lst = list(data)
             try:
-                r = ca.send_pgn(m["dp"], m["pf"], ps, m["prio"], list(data))
+                r = ca.send_pgn(m["dp"], m["pf"], ps, m["prio"], lst)
             except Exception as e:   # noqa - judged by the oracle
                 r = "EXC:%s:%s" % (type(e).__name__, str(e)[:120])
             results[mi] = (w.sim.now, r, bytes(data))
+            # the list belongs to the application: it reuses it for the next message as soon as send_pgn has returned
+            # (every second message: at once; else 3 ms later) - what was accepted is what it held at the call
+            if mi % 2 == 0:
+                lst[:] = [0xA5] * len(lst)
+            else:
+                w.sim.schedule(w.sim.now + 0.003, lambda: lst.__setitem__(slice(None), [0x5A] * len(lst)))
 
         def via_timer(mi=mi, m=m, do=do):
             stacks[m["src"][0]].ecu.add_timer(0.0, lambda cookie: (do(), False)[1])
